@@ -108,7 +108,7 @@ POLY_SCALES = [1.0, 3.0, 7.5]
 REGPOLY_N = [3, 5, 6]
 LINE_DIRS = [(3.0, -1.5), (0.0, 2.0), (-4.0, 0.0), (-0.25, -0.125)]
 TEXTS = ['a label', 'b {1} $x^2$']
-ORIGIN_FORMS = ['tuple', 'list', 'ndarray']
+ORIGIN_FORMS = ['tuple', 'list', 'ndarray', 'int_tuple']
 
 PATCH_VIS = {
     'empty': {},
@@ -218,6 +218,10 @@ def configs(tier):
         for s in POLY_SCALES:
             for c in C:
                 out.append(K.polygon_spec(name, s, c))
+    # polygons whose integral vertices are held in a (narrow, unsigned) numpy integer type, e.g. read from a table column
+    for dt in ('uint8', 'int16', 'uint16', 'int64'):
+        out.append({'cls': 'polygon', 'vertices': [[1, 9, 9, 4], [2, 2, 8, 6]], 'vertex_dtype': dt, 'name': 'int_quad'})
+        out.append({'cls': 'polygon', 'vertices': [[3, 7, 5], [1, 1, 9]], 'vertex_dtype': dt, 'name': 'int_triangle'})
     for n in REGPOLY_N:
         for c in C:
             for r in SIZES:
@@ -544,6 +548,8 @@ def _ulp(v):
 
 
 def _origin_obj(origin, form):
+    if form == 'int_tuple':       # whole-pixel origins given as Python ints, the way they are usually typed
+        return tuple(int(v) if float(v).is_integer() else v for v in origin)
     if form == 'list':
         return [origin[0], origin[1]]
     if form == 'ndarray':
